@@ -126,7 +126,7 @@ func runRobustLex(rc *RunCtx) *Violation {
 			d, fired = deriveInput(rc, x, hotOffsets(def, x), allContentFaults)
 			faultKinds = append(faultKinds, fired...)
 		}
-		if len(x) > 0 && simrt.Choose(bound(60, 25)) == 1 {
+		if len(x) > 0 && simrt.Choose(bound(60, 25)) == 1 && !ld.noHuge {
 			// an input larger than any internal buffer, with one very long run across a power-of-two offset
 			target := []int{40000, 70000, 140000}[simrt.Choose(3)]
 			big := strings.Repeat(x+"\n", 1+target/(len(x)+1))
